@@ -80,6 +80,11 @@ class AbstractDenseTimeOnlineInterpreter(AbstractOnlineInterpreter, DenseTimeInt
         return rob
 
     def set_variable_to_ast_from_dataset(self, dataset):
+        # a variable that this update does not mention has no new samples (before the first update it still
+        # holds the default value of its declaration)
+        for var in self.ast.free_vars:
+            if not isinstance(self.ast.var_object_dict.get(var), list):
+                self.ast.var_object_dict[var] = []
         for data in dataset:
             var_name = data[0]
             # the operations keep samples they cannot consume yet: they keep copies, so that a caller
